@@ -84,6 +84,8 @@ def op_term(o):
         return "(OCleanup %s %s)" % (clist(o.get("keep") or []), pool)
     if t == "se":
         return "(OSelect %d %d%%nat %s %s)" % (o.get("mhp", 0), o["limit"], commits(o.get("sel")), pool)
+    if t == "bc":
+        return "(OBroadcast %s)" % pool
     if t == "u":
         return "(OUpgrade %s %s)" % (commits(o.get("sel")), pool)
     raise ValueError(t)
@@ -147,7 +149,7 @@ def evaluate(ck, recs):
         o = p["ops"][ix]
         spec_bad = c >= 2
         names = {"v": "verifyAggregateCommit", "s": "singleCommitValidator", "c": "Certify", "g": "GetAggregateCommit->verifyAggregateCommit",
-                 "a": "Pool.Add", "aa": "Pool.Add", "cl": "Pool.Cleanup", "se": "Pool.Select", "u": "Pool.Upgrade"}
+                 "a": "Pool.Add", "aa": "Pool.Add", "cl": "Pool.Cleanup", "se": "Pool.Select", "u": "Pool.Upgrade", "bc": "broadcastCertificate"}
         kind = o["t"] + (":" + o.get("tag", "") if o["t"] == "v" else "")
         what = "%s: implementation %s (scenario %d phase %d part %s op %d): %s" % (
             names[o["t"]], "violates the C06 oracle" if spec_bad else "differs from the proved model", p["id"], p.get("phase", 0), p["part"], ix,
